@@ -609,3 +609,53 @@ theorem countKind_replicate_close (kd : Kind) (sp : Space) (k : Key) (n : Nat) (
     simp [isKind, Ne.symm h]
 
 end Mimium.Heap
+
+namespace Mimium.Heap
+
+/-! ## payload walks -/
+
+theorem countOp_walk (kd : Kind) (words : List (Option Key)) (offs : List Nat) (k : Key) :
+    countOp kd k (walk kd words offs) = visits words k offs := by
+  induction offs with
+  | nil => rfl
+  | cons o offs ih =>
+    simp only [walk, visits]
+    cases hw : wordAt words o with
+    | none => simp [ih]
+    | some k' =>
+      by_cases hk : k' = k
+      · subst hk
+        simp [countOp, isOp, ih]
+      · have : ¬ ((⟨kd, k'⟩ : Op) = ⟨kd, k⟩) := by intro e; cases e; exact hk rfl
+        simp [countOp, isOp, this, hk, ih]
+
+theorem visits_append (words : List (Option Key)) (k : Key) (a b : List Nat) :
+    visits words k (a ++ b) = visits words k a + visits words k b := by
+  induction a with
+  | nil => simp [visits]
+  | cons o a ih => simp only [List.cons_append, visits, ih]; omega
+
+theorem visits_perm {words : List (Option Key)} {o1 o2 : List Nat} (h : o1.Perm o2) (k : Key) :
+    visits words k o1 = visits words k o2 := by
+  induction h with
+  | nil => rfl
+  | cons x _ ih => simp only [visits, ih]
+  | swap x y l => simp only [visits]; omega
+  | trans _ _ ih1 ih2 => rw [ih1, ih2]
+
+/-- with pairwise distinct handles in the payload, the number of visits of the handle stored at word `j` is the
+number of times the walk visits offset `j` -/
+theorem visits_eq_count (words : List (Option Key)) (offs : List Nat) (j : Nat) (k : Key)
+    (hj : wordAt words j = some k)
+    (hinj : ∀ i, wordAt words i = some k → i = j) :
+    visits words k offs = offs.count j := by
+  induction offs with
+  | nil => rfl
+  | cons o offs ih =>
+    simp only [visits, List.count_cons, ih]
+    by_cases ho : o = j
+    · subst ho; simp [hj]; omega
+    · have : ¬ wordAt words o = some k := fun e => ho (hinj o e)
+      simp [this, ho]
+
+end Mimium.Heap
